@@ -428,6 +428,9 @@ func (d *Decls) Zero(s Sort, t types.Type) string {
 func and(xs ...string) string {
 	var ys []string
 	for _, x := range xs {
+		if x == "false" {
+			return "false"
+		}
 		if x == "true" || x == "" {
 			continue
 		}
@@ -445,6 +448,9 @@ func and(xs ...string) string {
 func or(xs ...string) string {
 	var ys []string
 	for _, x := range xs {
+		if x == "true" {
+			return "true"
+		}
 		if x == "false" || x == "" {
 			continue
 		}
@@ -501,3 +507,17 @@ type unsupportedErr struct{ msg string }
 
 func (u unsupportedErr) Error() string { return "unsupported: " + u.msg }
 func unsupported(msg string) error     { return unsupportedErr{msg} }
+
+// constSort returns the declared sort of a constant.
+func (d *Decls) constSort(name string) (Sort, bool) {
+	if !d.seen["c:"+name] {
+		return "", false
+	}
+	pre := "(declare-const " + name + " "
+	for _, t := range d.order {
+		if strings.HasPrefix(t, pre) {
+			return Sort(strings.TrimSuffix(strings.TrimPrefix(t, pre), ")")), true
+		}
+	}
+	return "", false
+}
